@@ -136,6 +136,7 @@ int main(int argc, char** argv)
         p.maxBatch = tier ? 40 : 12;
         p.beyond16Bit = true;
         p.boundaryWeight = 10;
+        p.allowErrorFlag = true;
         // the C07 domain has payload lengths 1..65535; one case in six goes beyond it with packets whose payload is empty: they
         // put no message on the wire, and the rules for the packets around them (frame of their own message type, batch order,
         // appending only to a frame of the same type) must hold all the same
